@@ -73,7 +73,7 @@ static VIA_TEXT: std::sync::atomic::AtomicU64 = std::sync::atomic::AtomicU64::ne
 
 pub fn run(ctx: &Ctx) {
     ctx.set_rule(
-        "Generated: (1) every node kind x every operand tuple from the boundary pool (exhaustive depth-1 cells, \
+        "Generated: (0) chains of 18 operands of every binary kind, towers of 18 of every unary kind, conditionals nested in conditions, over logged calls (each operand must run once: evaluation work stays linear in the size of the expression); (1) every node kind x every operand tuple from the boundary pool (exhaustive depth-1 cells, \
          incl. if/index/call/reference cells); (2) every outer kind over every inner depth-1 cell over the extremes pool in each \
          operand position (depth-2; exhaustive in thorough, strided sample in quick); (3) recipe-decoded random trees over all 47 \
          node kinds to depth 6 with typed/untyped children, on map / non-map / None inputs, half of them evaluated inside a ruleset \
@@ -87,6 +87,30 @@ pub fn run(ctx: &Ctx) {
     ctx.assume("reference evaluator (harness/src/model/eval.rs) decides which exact results are out of range");
 
     super::regressions::run(ctx, "C01", replay);
+
+    // (0) completion: chains of 18 operands of every binary kind (nested to the left and to the right), towers of every
+    // unary kind, conditionals in conditions: the innermost operand is a logged call, and it runs once (work linear in the
+    // size of the expression is what "completes" means for expressions of a few hundred nodes)
+    let chains = super::c05::deep_chain_cases(18);
+    ctx.enumerate(
+        "deep-chains-complete",
+        chains.len() as u64,
+        true,
+        |i, acc| {
+            let case = &chains[i as usize];
+            acc.cell(&format!("chain:{}", root_sig(&case.expr)), true);
+            if i % 23 == 0 {
+                acc.sample("chain", || case.render());
+            }
+            super::c05::check(case).map_err(|i| Issue::new(i.sig.replace("lazy:", "never:completes-with-linear-work:"), i.msg))
+        },
+        |i| {
+            let mut j = chains[i as usize].to_json();
+            j["chain"] = serde_json::json!(true);
+            j
+        },
+        "chain",
+    );
 
     // (1) depth-1 exhaustive over the boundary pool
     let cells = Cells::new(pool::boundary());
@@ -193,6 +217,10 @@ pub fn replay(j: &serde_json::Value) -> Option<Verdict> {
     if let Some(b) = j.get("fuzz_bytes").and_then(|b| b.as_array()) {
         let bytes: Vec<u8> = b.iter().filter_map(|x| x.as_u64().map(|x| x as u8)).collect();
         return Some(check(&random_case(&bytes, 7)));
+    }
+    if j.get("chain").is_some() {
+        return EvalCase::from_json(j)
+            .map(|c| super::c05::check(&c).map_err(|i| Issue::new(i.sig.replace("lazy:", "never:completes-with-linear-work:"), i.msg)));
     }
     EvalCase::from_json(j).map(|c| check(&c))
 }
